@@ -159,6 +159,10 @@ def run(chk):
         if all(d is None or d == 0 for d in data):
             data[0] = 4
         nx, ny = rng.random() < 0.5 and not forced_uint, rng.random() < 0.5
+        forced_nan = it_rf in (4, 5, 6, 7)       # every run: missing values together with each combination of the two normalisations
+        if forced_nan:
+            data = [rng.choice([1, 2, 3, 5, 8, 13]) for _ in range(rng.randint(3, 8))] + [None, 4, None]
+            nx, ny = bool((it_rf - 4) & 1), bool((it_rf - 4) & 2)
         sx, sy = rng.choice([1.0, 2.0, 0.5]), rng.choice([1.0, 3.0])
         lx, ly = rng.random() < 0.5, rng.random() < 0.5
         tx, ty = rng.choice([None, "plus1", "double"]), rng.choice([None, "plus1", "double"])
@@ -175,7 +179,7 @@ def run(chk):
             # count vectors as NumPy integer arrays of any width, signed or unsigned (zeros included)
             arr = np.array(data, dtype=rng.choice([np.uint8, np.uint16, np.uint32, np.uint64] + ([] if forced_uint else [np.int8, np.int64])))
         kw = dict(normalize_x=nx, normalize_y=ny, scalex=sx, scaley=sy, log_x=lx, log_y=ly, transform_x=tf[tx], transform_y=tf[ty])
-        if rng.random() < 0.3 and not forced_uint:      # defaults: normalize_x, not normalize_y, both axes logarithmic
+        if rng.random() < 0.3 and not forced_uint and not forced_nan:      # defaults: normalize_x, not normalize_y, both axes logarithmic
             for k_ in ("normalize_x", "normalize_y", "log_x", "log_y"):
                 del kw[k_]
             nx, ny, lx, ly = True, False, True, True
